@@ -211,6 +211,83 @@ SPlan GenerateSPlan(uint64_t seed, int max_tasks, bool canary) {
         if (op.kind <= 1) op.w.gseed = mix64(op.w.gseed, t) >> 2;
     }
   }
+  // Wide-symbol plans (a sixth): every task decodes (or encodes) two or three
+  // small geometries whose integer attributes hold a few distinct but large
+  // values without prediction, so that the entropy layer runs its raw scheme
+  // with the high-precision (18..20 bit) tables in several threads at once,
+  // several coder lifetimes per thread.
+  if (!canary && r.Fork("wide").Chance(1, 6)) {
+    for (size_t t = 0; t < p.tasks.size(); ++t) {
+      Rng rw = r.Fork(7000 + t);
+      std::vector<SOp> ops;
+      const int nops = static_cast<int>(rw.Range(2, 3));
+      for (int i = 0; i < nops; ++i) {
+        SOp op;
+        Rng ro = rw.Fork(i);
+        op.kind = ro.Chance(3, 4) ? 1 : 0;
+        Workload w;
+        w.kind = ro.Chance(1, 2) ? 1 : 0;
+        w.topo = 0;
+        w.n = static_cast<int>(ro.Range(30, 200));
+        w.gseed = ro.Next() >> 2;
+        AttDesc pos;
+        w.atts.push_back(pos);
+        const int na = static_cast<int>(ro.Range(1, 2));
+        for (int a = 0; a < na; ++a) {
+          AttDesc g;
+          g.type = draco::GeometryAttribute::GENERIC;
+          g.dt = ro.Fork(40 + a).Chance(1, 2) ? draco::DT_UINT16 : draco::DT_UINT32;
+          g.nc = static_cast<int>(ro.Fork(50 + a).Range(1, 2));
+          g.vals = 1;
+          w.atts.push_back(g);
+        }
+        w.method = w.kind == 0 ? static_cast<int>(ro.Range(0, 1)) : 0;
+        w.qb[0] = 11;
+        w.pred[4] = ro.Chance(1, 2) ? -2 : 0;
+        w.espeed = w.dspeed = static_cast<int>(ro.Range(1, 7));
+        op.w = w;
+        ops.push_back(op);
+      }
+      p.tasks[t] = ops;
+    }
+  }
+  // A few plans with thousands of values per attribute over ~700 distinct
+  // symbols at the highest compression level: the only way to the 18..20 bit
+  // tables of the raw symbol scheme (their number of *distinct* symbols selects
+  // the table precision). Two or three tasks, two coder lifetimes each.
+  if (!canary && r.Fork("wide-large").Chance(1, 40)) {
+    const size_t nt = 2 + r.Fork("wide-large-n").Below(2);
+    p.tasks.resize(nt);
+    for (size_t t = 0; t < nt; ++t) {
+      Rng rw = r.Fork(7500 + t);
+      std::vector<SOp> ops;
+      for (int i = 0; i < 2; ++i) {
+        SOp op;
+        Rng ro = rw.Fork(i);
+        op.kind = ro.Chance(4, 5) ? 1 : 0;
+        Workload w;
+        w.kind = 1;
+        w.topo = 0;
+        w.n = static_cast<int>(ro.Range(2000, 2600));
+        w.gseed = ro.Next() >> 2;
+        AttDesc pos;
+        w.atts.push_back(pos);
+        AttDesc g;
+        g.type = draco::GeometryAttribute::GENERIC;
+        g.dt = draco::DT_UINT16;
+        g.nc = 3;
+        g.vals = 2;
+        w.atts.push_back(g);
+        w.method = 0;
+        w.qb[0] = 10;
+        w.pred[4] = -2;
+        w.espeed = w.dspeed = 0;
+        op.w = w;
+        ops.push_back(op);
+      }
+      p.tasks[t] = ops;
+    }
+  }
   const uint64_t s = r.Below(3);
   p.strategy = s == 0 ? "pct" : "random";
   static const int ps[] = {2, 10, 50, 200, 600};
